@@ -91,8 +91,8 @@ type wModel struct {
 	s wState
 }
 
-func (b *wBuilder) Init() Model  { return &wModel{b: b} }
-func (m *wModel) Status() int    { return m.s.status }
+func (b *wBuilder) Init() Model { return &wModel{b: b} }
+func (m *wModel) Status() int   { return m.s.status }
 func cap2(x uint8) uint8 {
 	if x >= 2 {
 		return 2
